@@ -62,18 +62,61 @@ def workdir(name):
     return d
 
 
+PAR = int(os.environ.get("VERIF_PAR", "8"))       # parallel harness / TLC processes for large scenario sets
+
+
+def harness_env():
+    """Every scenario re-initialises the canister, whose stable-memory layout allocates and frees about
+    100 MB; glibc would hand that back to the kernel and fault it in again each time (0.2 s per scenario).
+    Keeping it on the heap makes a scenario cost milliseconds."""
+    e = dict(os.environ)
+    e.update({"MALLOC_MMAP_MAX_": "0", "MALLOC_TRIM_THRESHOLD_": "17179869184", "MALLOC_TOP_PAD_": "268435456"})
+    return e
+
+
+def _run_harness(sp, tp):
+    p = subprocess.run([HARNESS_BIN, "run", sp, tp], stdout=subprocess.DEVNULL, stderr=subprocess.PIPE, text=True,
+                       timeout=7200, env=harness_env())
+    if p.returncode != 0:
+        raise ToolError("harness run failed:\n" + p.stderr[-4000:])
+
+
 def run_scenarios(scenarios, wd, name="trace"):
-    """Executes scenarios against the real canister; returns the trace path."""
+    """Executes scenarios against the real canister; returns the trace path.  Scenarios are independent
+    (each starts with `init`), so large sets are executed by several harness processes and the traces are
+    concatenated in scenario order."""
     build_harness()
     sp = os.path.join(wd, name + ".scenarios.ndjson")
     tp = os.path.join(wd, name + ".ndjson")
     with open(sp, "w") as f:
         for s in scenarios:
             f.write(json.dumps(s, separators=(",", ":")) + "\n")
-    p = subprocess.run([HARNESS_BIN, "run", sp, tp], stdout=subprocess.DEVNULL, stderr=subprocess.PIPE, text=True,
-                       timeout=3600)
-    if p.returncode != 0:
-        raise ToolError("harness run failed:\n" + p.stderr[-4000:])
+    k = min(PAR, len(scenarios) // 24)
+    if k <= 1:
+        _run_harness(sp, tp)
+        return tp
+    from concurrent.futures import ThreadPoolExecutor
+    size = (len(scenarios) + k - 1) // k
+    parts = []
+    for i in range(k):
+        chunk = scenarios[i * size:(i + 1) * size]
+        if not chunk:
+            continue
+        psp = os.path.join(wd, f"{name}.part{i}.scenarios.ndjson")
+        ptp = os.path.join(wd, f"{name}.part{i}.ndjson")
+        with open(psp, "w") as f:
+            for s in chunk:
+                f.write(json.dumps(s, separators=(",", ":")) + "\n")
+        parts.append((psp, ptp))
+    with ThreadPoolExecutor(max_workers=len(parts)) as ex:
+        for fut in [ex.submit(_run_harness, a, b) for a, b in parts]:
+            fut.result()
+    with open(tp, "wb") as out:
+        for psp, ptp in parts:
+            with open(ptp, "rb") as f:
+                shutil.copyfileobj(f, out)
+            os.remove(ptp)
+            os.remove(psp)
     return tp
 
 
@@ -85,8 +128,8 @@ def _unescape(s):
     return s.replace('\\"', '"').replace("\\\\", "\\")
 
 
-def run_tlc(module, cfg, wd, env=None, workers=1, timeout=1800, extra=None, heap="6g"):
-    meta = os.path.join(wd, "meta-" + module)
+def run_tlc(module, cfg, wd, env=None, workers=1, timeout=1800, extra=None, heap="6g", tag=""):
+    meta = os.path.join(wd, "meta-" + module + tag)
     shutil.rmtree(meta, ignore_errors=True)
     e = {"JAVA_TOOL_OPTIONS": f"-Xss1g -Xmx{heap} -Dtlc2.tool.queue.IStateQueue=StateDeque"}
     if env:
@@ -125,15 +168,56 @@ def tlc_stats(out):
     return st
 
 
-def validate_trace(trace_path, wd, timeout=1800):
-    """Runs TraceCanister on the trace. Returns dict(reports, accepted, stats, wall, raw)."""
-    rc, out, wall = run_tlc("TraceCanister", "TraceCanister.cfg", wd, env={"TRACE": trace_path}, timeout=timeout)
+def _validate_one(trace_path, wd, timeout, tag=""):
+    rc, out, wall = run_tlc("TraceCanister", "TraceCanister.cfg", wd, env={"TRACE": trace_path}, timeout=timeout, tag=tag)
     reps = parse_reports(out)
     ok = "Model checking completed. No error has been found." in out
     if not ok:
         # an evaluation error in the trace spec, a violated invariant, or the postcondition
         reps.append({"kind": "TLCERROR", "tag": "tlc", "detail": out[-3000:]})
     return {"reports": reps, "accepted": ok, "stats": tlc_stats(out), "wall": wall, "raw": out, "rc": rc}
+
+
+def validate_trace(trace_path, wd, timeout=1800):
+    """Runs TraceCanister on the trace. Returns dict(reports, accepted, stats, wall, raw).  A long trace is cut
+    at scenario boundaries (`universe` records) and the pieces are validated by parallel TLC processes; the
+    line numbers of their reports are shifted back to lines of the whole trace."""
+    with open(trace_path) as f:
+        lines = f.readlines()
+    starts = [i for i, ln in enumerate(lines) if '"ev":"universe"' in ln]
+    k = min(PAR, len(lines) // 15000, len(starts))
+    if k <= 1:
+        return _validate_one(trace_path, wd, timeout)
+    from concurrent.futures import ThreadPoolExecutor
+    target = len(lines) / k
+    cuts = [0]
+    for st in starts:
+        if st - cuts[-1] >= target and len(cuts) < k:
+            cuts.append(st)
+    cuts.append(len(lines))
+    pieces = []
+    for i in range(len(cuts) - 1):
+        pp = trace_path + f".piece{i}"
+        with open(pp, "w") as f:
+            f.writelines(lines[cuts[i]:cuts[i + 1]])
+        pieces.append((pp, cuts[i]))
+    t0 = time.time()
+    with ThreadPoolExecutor(max_workers=len(pieces)) as ex:
+        results = [fut.result() for fut in [ex.submit(_validate_one, pp, wd, timeout, f"-p{i}") for i, (pp, _o) in enumerate(pieces)]]
+    reports, ok, raw = [], True, ""
+    st = {"generated": 0, "distinct": 0, "depth": 0}
+    for (pp, off), r in zip(pieces, results):
+        for rep in r["reports"]:
+            if isinstance(rep.get("l"), int):
+                rep["l"] += off
+            reports.append(rep)
+        ok = ok and r["accepted"]
+        raw += r["raw"][-2000:]
+        for key in ("generated", "distinct"):
+            st[key] += r["stats"].get(key, 0)
+        st["depth"] += r["stats"].get("depth", 0)
+        os.remove(pp)
+    return {"reports": reports, "accepted": ok, "stats": st, "wall": time.time() - t0, "raw": raw, "rc": 0 if ok else 1}
 
 
 def load_trace(path):
